@@ -73,8 +73,9 @@ that the Coq development still builds and the violation search has a model and a
   create_accept_header(v).acceptable_offers([..])   neg v [..] : the NEGOTIATION ORACLE (WebOb), a parameter of the
                         generated functions; its value is the list of kept offers in order of preference
   [o[0] for o in X]     X (the oracle already stands for the offer names);  X[0] -> hd [] X, only for X = _ ++ [_]
-  _html_escape(x)       html_escape x;  _no_escape(x) -> no_escape x   (x text; their module-level bindings are
-                        checked: import from webob / the pinned function _no_escape)
+  _html_escape(x)       html_escape x (module-level binding checked: import from webob);  _no_escape(x) -> gen_no_escape x,
+                        the translation of the module-level function _no_escape (text_function: on a str argument the
+                        `is None`, `not isinstance(value, str)` tests are static)
   {k: v, ..}            aset .. (aset k v [])   ;  T.substitute(args) / T.substitute(k=v, ..) -> substitute T [..]
   Template(t)           t ;  json.dumps(dict of texts) -> json_object ;  isinstance(text, str) -> True
   x.encode(E)           encode_text E x  (UTF-8 only; another codec is an explicit error value)
@@ -92,7 +93,8 @@ import os
 HERE = os.path.dirname(os.path.abspath(__file__))
 
 # every source function whose control flow is regenerated on every run (tools/coverage_map.py reads this)
-TRANSLATED = ['pyramid/httpexceptions.py:HTTPException.__init__',
+TRANSLATED = ['pyramid/httpexceptions.py:_no_escape',
+              'pyramid/httpexceptions.py:HTTPException.__init__',
               'pyramid/httpexceptions.py:_HTTPMove.__init__',
               'pyramid/httpexceptions.py:HTTPForbidden.__init__',
               'pyramid/httpexceptions.py:HTTPException._json_formatter',
@@ -720,6 +722,31 @@ def block(stmts, st, cx, kont):
     raise Problem('statement %s is outside the subset' % type(s).__name__)
 
 
+def text_function(stmts, st, cx):
+    """body of a text-valued function of texts: assignments, if / elif / else (decision tree; statically known tests
+    resolved, so dead branches are never looked at), return <text>"""
+    if not stmts:
+        raise Problem('text function: a path ends without return')
+    s, rest = stmts[0], stmts[1:]
+    if isinstance(s, ast.Pass) or (isinstance(s, ast.Expr) and isinstance(s.value, ast.Constant)):
+        return text_function(rest, st, cx)
+    if isinstance(s, ast.Return):
+        if s.value is None:
+            raise Problem('text function: bare return')
+        v = expr(s.value, st, cx)
+        if v.ty != 'text':
+            raise Problem('text function returns a %s' % v.ty)
+        return v.code
+    if isinstance(s, ast.Assign) and len(s.targets) == 1 and isinstance(s.targets[0], ast.Name):
+        st = st.copy()
+        st.vars[s.targets[0].id] = expr(s.value, st, cx)
+        return text_function(rest, st, cx)
+    if isinstance(s, ast.If):
+        return cond(s.test, st, cx, lambda s1: text_function(list(s.body) + rest, s1, cx),
+                    lambda s2: text_function(list(s.orelse) + rest, s2, cx))
+    raise Problem('text function: statement %s' % type(s).__name__)
+
+
 # ------------------------------------------------------------------------------------------ functions
 def params_of(fn):
     a = fn.args
@@ -771,8 +798,8 @@ def check_bindings(tree):
                 if a.name == 'html_escape':
                     esc[a.asname or a.name] = 'html_escape'
         if isinstance(st, ast.FunctionDef) and st.name == '_no_escape':
-            esc['_no_escape'] = 'no_escape'
-    if sorted(esc.values()) != ['html_escape', 'no_escape']:
+            esc['_no_escape'] = 'gen_no_escape'          # translated below (text_function)
+    if sorted(esc.values()) != ['gen_no_escape', 'html_escape']:
         raise Problem('escape functions are not bound as the table expects: %r' % esc)
     bound = {}
     for st in tree.body:
@@ -833,6 +860,16 @@ def translate(tree):
     helpers['json_formatter'] = json_formatter
 
     out = []
+    # ---- _no_escape(value): a str -> str function; on a text the None / non-str / bytes branches are statically dead
+    ne = [f for f in tree.body if isinstance(f, ast.FunctionDef) and f.name == '_no_escape']
+    if len(ne) != 1 or ne[0].decorator_list:
+        raise Problem('_no_escape not found / decorated')
+    ps, kw, defaults = params_of(ne[0])
+    if ps != ['value'] or kw or defaults:
+        raise Problem('_no_escape signature')
+    cx = Ctx('text', None, meta, {'escapes': {}})
+    out.append('Definition gen_no_escape (value : text) : text :=\n  %s.\n'
+               % text_function(list(ne[0].body), St({'value': T('value', 'text')}, 'self'), cx))
     # ---- HTTPException.__init__
     fi = find(tree, 'HTTPException', '__init__')
     ps, kw, defaults = params_of(fi)
